@@ -1,5 +1,6 @@
 mod bulk;
 mod capi;
+mod capichk;
 mod child;
 mod common;
 mod comp;
@@ -10,6 +11,7 @@ mod qchk;
 mod qclock;
 mod qcrash;
 mod qexpr;
+mod qlimit;
 mod qry;
 mod qupd;
 mod rt;
@@ -88,6 +90,8 @@ fn main() {
         "C16" => qcrash::c16(tier),
         "C30" => bulk::c30(tier),
         "C32" => qclock::c32(tier),
+        "C33" => qlimit::c33(tier),
+        "C34" => capichk::c34(tier),
         "C19" => qchk::c19(tier),
         "C20" => qexpr::c20(tier),
         "C21" => qexpr::c21(tier),
